@@ -125,6 +125,44 @@ def atoms_only(spec):
     return all(r.comb_class.is_atom() for r in spec.rules_dict.values() if isinstance(r, VerificationRule))
 
 
+def bisim_desc(spec):
+    """class name -> node of Bisim.tla, the empty classes, the root name; None for specifications with parameters."""
+    from comb_spec_searcher.strategies.rule import Rule
+
+    names = {}
+
+    def nm(c):
+        return names.setdefault(c, "n%d" % len(names))
+
+    nodes, empties = {}, set()
+    for c, r in spec.rules_dict.items():
+        if c.extra_parameters:
+            return None
+        kids = list(r.children)
+        for k in kids:
+            if k.is_empty():
+                empties.add(nm(k))
+        atom = bool(not kids and c.is_atom() and not c.is_empty())
+        sz = -1
+        if atom:
+            sz = int(next(c.objects_of_size(c.minimum_size_of_object())).size())
+        nodes[nm(c)] = {"eq": bool(kids and r.is_equivalence()), "k": type(r.constructor).__name__ if isinstance(r, Rule) else "V",
+                        "ch": [nm(k) for k in kids], "atom": atom, "sz": sz}
+    # children without a rule are empty classes (their rules are created lazily): leaves that are never atoms
+    for n in list(nodes.values()):
+        for k in n["ch"]:
+            if k not in nodes:
+                nodes[k] = {"eq": False, "k": "V", "ch": [], "atom": False, "sz": -1}
+    return nodes, sorted(empties), nm(spec.root)
+
+
+def bisim_event(sp1, sp2, claim, ans=""):
+    d1, d2 = bisim_desc(sp1), bisim_desc(sp2)
+    if d1 is None or d2 is None or len(d1[0]) * len(d2[0]) > 1600:
+        return None
+    return {"op": "bisim", "A": d1[0], "EA": d1[1], "ra": d1[2], "B": d2[0], "EB": d2[1], "rb": d2[2], "claim": claim, "ans": ans}
+
+
 def pair_job(args):
     """C12 worker: two plain searches -> isomorphism test both ways, reflexivity, bijection tables, JSON reload."""
     (s1cfg, pk1, fl1), (s2cfg, pk2, fl2) = args
@@ -139,6 +177,9 @@ def pair_job(args):
         return None
     events = [{"op": "check", "ab": tf(lambda: Isomorphism.check(sp1, sp2)), "ba": tf(lambda: Isomorphism.check(sp2, sp1))},
               {"op": "reflexive", "atoms_only": atoms_only(sp1), "res": tf(lambda: Isomorphism.check(sp1, sp1))}]
+    be = bisim_event(sp1, sp2, "check", events[0]["ab"])
+    if be is not None:
+        events.append(be)
     try:
         b = Bijection.construct(sp1, sp2)
     except Exception as e:
@@ -186,6 +227,9 @@ def finder_job(args):
         except Exception as e:
             b = None
         ev["bijection"] = b is not None
+        be = bisim_event(sp1, sp2, "finder")
+        if be is not None:
+            events.append(be)
         if b is not None:
             events += bij_events(b, c1, c2, "A", "B", max_n=5)
         for side, (spec, cls, pack) in enumerate(((sp1, c1, pack1), (sp2, c2, pack2))):
@@ -247,6 +291,16 @@ def run(tier: str, seed: int, pid="C12") -> int:
         run_.rule = ("ordered pairs of specifications from a pool (start classes x {plain,sym,inf,syminf} x three rule databases), mirror "
                      "pairs forced in; non-trivial = a bijection was constructed (its tables for n <= 6 are judged)")
     else:
+        # the lemma the independent isomorphism judge (Bisim.tla) rests on, and that its result is a bisimulation, reflexive and
+        # symmetric: all pairs of systems with two internal classes (quick: nodes drawn from random subsets of 10)
+        cfg = tlc.read_spec("MC_Bisim.cfg")
+        if tier == "thorough":
+            cfg = cfg.replace("CONSTANT Sample = 10", "CONSTANT Sample = 0")
+        tlc.write_module(run_.wd, "MC_Bisim", tlc.read_spec("MC_Bisim.tla"), cfg)
+        r = tlc.require_ok(tlc.run_tlc(run_.wd, "MC_Bisim", workers=8, timeout=5000, seed=seed + 7), "MC_Bisim")
+        run_.add_tlc(r, "MC_Bisim: greedy pairing = search over all permutations; result is a bisimulation, reflexive, symmetric")
+        if r.status == "violated":
+            raise tlc.MachineryError("the lemma of Bisim.tla fails:\n" + r.out[-2000:])
         items = [(s, pk) for s in STARTS[: (12 if tier == "quick" else 20)] for pk in PACKS if pk != "symcycle" and not pk.startswith("two")]
         pairs = [(a, b, v) for a in items for b in items for v in ("plain", "eqpath")]
         rnd.shuffle(pairs)
@@ -309,10 +363,19 @@ def selftest(seed: int, pid="C12") -> int:
         bad1 = json.loads(json.dumps(good)); bad1["tid"] = "corrupt"
         bad1["events"][0]["kind"] = "AssertionError"
     good["tid"] = "good"
-    v = tlc.validate_traces(run_.wd, "Trace_Iso", [good, bad1], jvms=1)
+    extra = []
+    if pid != "C12":
+        # the independent isomorphism judge: the second specification's root rule exchanged for a product
+        bad2 = json.loads(json.dumps(good)); bad2["tid"] = "swapped-rule"
+        be = next(e for e in bad2["events"] if e["op"] == "bisim")
+        root = be["B"][be["rb"]]
+        node = root if not root["eq"] else be["B"][root["ch"][0]]
+        node["k"] = "CartesianProduct" if node["k"] != "CartesianProduct" else "DisjointUnion"
+        extra = [bad2]
+    v = tlc.validate_traces(run_.wd, "Trace_Iso", [good, bad1] + extra, jvms=1)
     rejected = {x["tid"]: x["clause"] for x in v.rejects}
     tlc.clean_workdir(run_.wd)
-    ok = set(rejected) == {"corrupt"}
+    ok = set(rejected) == {"corrupt"} | {t["tid"] for t in extra}
     print("selftest %s: rejected=%s -> %s" % (pid, rejected, "OK" if ok else "FAILED"))
     return 0 if ok else 2
 
